@@ -98,6 +98,16 @@ def scenarios(draw):
     pre = [{'a': 'ns_add', 'ns': n, 'dt': 0.0} for n in pre_ns]
     pre += draw(st.lists(st.builds(lambda n, o, v: {'a': 'create', 'ns': n, 'obj': o, 'v': v, 'dt': 0.0}, ns, obj, val), max_size=3))
     actions = draw(st.lists(st.one_of(*choices), min_size=4, max_size=22))
+    if mode == 'namespaced' and draw(st.integers(0, 5)) == 0:
+        # a namespace that goes and comes back (twice) faster than the watchers of its previous life can be terminated: a slow
+        # raw-event handler keeps the terminating watcher (and with it the orchestrator) busy for up to exit_timeout
+        spec['handlers'][0]['duration'] = draw(st.sampled_from([1.0, 1.5, 1.9]))
+        n = draw(st.sampled_from(NS_ALL[1:]))
+        gaps = st.sampled_from([0.0, 0.1, 0.4])
+        actions = [{'a': 'ns_add', 'ns': n, 'dt': 0.5}, {'a': 'create', 'ns': n, 'obj': 0, 'v': 1, 'dt': 3.0}, {'a': 'edit', 'ns': n, 'obj': 0, 'v': 2, 'dt': draw(gaps)},
+                   {'a': 'ns_remove', 'ns': n, 'dt': draw(gaps)}, {'a': 'ns_add', 'ns': n, 'dt': draw(gaps)},
+                   {'a': 'ns_remove', 'ns': n, 'dt': draw(gaps)}, {'a': 'ns_add', 'ns': n, 'dt': draw(st.sampled_from([0.5, 3.0]))},
+                   {'a': 'create', 'ns': n, 'obj': 1, 'v': 5, 'dt': 1.0}, {'a': 'checkpoint'}] + actions[:6]
     if draw(st.integers(0, 11)) == 0:
         r = draw(res)
         actions.append({'a': 'fault', 'spec': {'on': 'watch', 'plural': r, 'do': 'stream', 'kind': 'error', 'code': draw(st.sampled_from([500, 403])), 'at': draw(st.integers(0, 1)),
